@@ -8,10 +8,10 @@ from common import MachineryError, Result, Work, dump_states, main_wrapper, run_
 
 PID = "C10"
 TABLES = [
-    {"p1": ("k2", "U", "k3"), "p2": ("p1", "O", "t3")},          # package inside a package (stays), time condition inside a package
-    {"p1": ("k2",), "p2": ()},                                    # p2 unknown to the resolver
-    {"p1": ("k2", "k3"), "p2": ("(", "k2", "X", "k3", ")", "O", "t1")},
-    {"p1": ("t3",), "p2": ("k2", "O", "k3", "U", "k1")},
+    {"p1": ("k2", "U", "k3"), "p2": ("p1", "O", "t3"), "pz": ()},          # package inside a package (stays), time condition inside a package
+    {"p1": ("k2",), "p2": (), "pz": ()},                                    # p2 unknown to the resolver
+    {"p1": ("k2", "k3"), "p2": ("(", "k2", "X", "k3", ")", "O", "t1"), "pz": ()},
+    {"p1": ("t3",), "p2": ("k2", "O", "k3", "U", "k1"), "pz": ()},
 ]
 KEYNUM = {"k1": "1", "k2": "2", "k3": "3", "k932": "932", "k934": "934", "k492": "492", "k493": "493"}
 
@@ -23,9 +23,10 @@ def render(tokens, rng):
         if t in KEYNUM:
             out.append(f"[{KEYNUM[t]}]")
             names.append(t)
-        elif t in ("p1", "p2"):
+        elif t in ("p1", "p2", "pz"):
             rep = rng.choice(["", "", "0..1", "1..5", " 2..9"]) if rng else ""
-            out.append(f"[{t[1]}P{rep}]")
+            num = t[1] if t != "pz" else (rng.choice(["01", "001"]) if rng else "01")     # pz: p1's number with leading zeros = another key
+            out.append(f"[{num}P{rep}]")
             names.append(t)
         elif t in ("t1", "t2", "t3"):
             out.append(f"[UB{t[1]}]")
@@ -42,7 +43,8 @@ def leaf_name(kind, text):
     if kind == "key":
         return "k" + text
     if kind == "pkg":
-        return "p" + text.split("P")[0]
+        num = text.split("P")[0]
+        return "pz" if num.startswith("0") else "p" + num
     return "t" + text[2]
 
 
@@ -91,7 +93,7 @@ async def check_state(st, table, idx, sd, acc):
     rng = random.Random(sd * 1000003 + idx)
     ts = list(st["ts"])
     expr, _ = render(ts, rng)
-    pk = {f"{p[1]}P": render(list(body), rng)[0] for p, body in table.items() if body}
+    pk = {f"{p[1]}P": render(list(body), rng)[0] for p, body in table.items() if body and p != "pz"}
     ahb.set_cer_values(rc={}, fc={}, hints={}, packages=pk)
     case = {"expr": expr, "tokens": ts, "packages": pk}
     acc.c("resolutions")
@@ -138,7 +140,7 @@ async def check_state(st, table, idx, sd, acc):
         pt, pn = spec_tree_numbered(o["pkgtree"])
         pkg_subst = []
         for t in ts:
-            pkg_subst += (["("] + list(table[t]) + [")"]) if t in table else [t]
+            pkg_subst += (["("] + list(table[t]) + [")"]) if t in table and table[t] else [t]
         if canon_real(only_p, pkg_subst) != (pt, pn):
             acc.v(f"expand_packages on {expr!r} with {pk} gives {canon_real(only_p, pkg_subst)}, substitution gives {(pt, pn)}", case)
         only_t = expand_time_conditions(base)
@@ -175,6 +177,71 @@ def _worker(args):
     return acc.viol, acc.samples, acc.counts, acc.distinct
 
 
+def spec_tree_json(tree, names):
+    """numbered n-ary tree + leaf names -> the JSON form of a Resolve.tla tree (token names as leaves)"""
+    if tree[0] == "leaf":
+        return ["leaf", [names[tree[1][0] - 1]]]
+    return [tree[0], [spec_tree_json(c, names) for c in tree[1]]]
+
+
+def long_expressions(res, work, n):
+    """random expressions with 8-14 operands, most of them abbreviations (so that more than eight package occurrences meet in one expression), resolved by
+    the real code and decided by TLC against SubstTree / the substitution lemma (ResolveTrace.tla)"""
+    import ahb
+    ahb.configure()
+    from common import validate_traces
+    from ahbicht.expressions.expression_resolver import parse_expression_including_unresolved_subexpressions
+    rng = random.Random(seed() * 431 + 10)
+    for ti, table in enumerate(TABLES[:3]):
+        mod = work.path(f"MC_ResolveTrace{ti}.tla")
+        rows = " @@ ".join(f"({to_tla(p)} :> {to_tla(tuple(b))})" for p, b in table.items())
+        mod.write_text(f"---- MODULE MC_ResolveTrace{ti} ----\nEXTENDS ResolveTrace\nMCOperands == {{}}\nMCTable == {rows}\n====\n")
+        cfg = work.path(f"MC_ResolveTrace{ti}.cfg")
+        cfg.write_text("CONSTANTS\n MaxTok = 0\n Operands <- MCOperands\n Table <- MCTable\nINIT TInit\nNEXT TCheck\nCONSTRAINT Accepted\nCHECK_DEADLOCK FALSE\n")
+        traces = []
+
+        async def go():
+            for tid in range(1, n // 3 + 2):
+                toks = CP.random_tokens(rng, rng.randint(8, 13), max_depth=3)
+                heavy = rng.random() < 0.5
+                ts = [(rng.choice(["p1", "p2", "p1", "p2", "t3", "t1"]) if heavy else rng.choice(["k1", "k2", "p1", "p2", "t1", "t2", "t3", "pz" if rng.random() < 0.2 else "k3"]))
+                      if t == "a" else t for t in toks]
+                expr, _ = render(ts, rng)
+                pk = {f"{p[1]}P": render(list(body), rng)[0] for p, body in table.items() if body and p != "pz"}
+                ahb.set_cer_values(rc={}, fc={}, hints={}, packages=pk)
+                wrap = rng.choice(["", "", "Muss "])
+                try:
+                    r = await parse_expression_including_unresolved_subexpressions(wrap + expr, resolve_packages=True, replace_time_conditions=True)
+                    if wrap:
+                        r = r.children[0].children[1]
+                    subst = []
+                    for t in ts:
+                        subst += (["("] + list(table[t]) + [")"]) if t in table and table[t] else [t]
+                    subst2 = []
+                    for t in subst:
+                        subst2 += {"t1": ["k932"], "t2": ["k934"], "t3": ["(", "k932", "k492", "X", "k934", "k493", ")"]}.get(t, [t])
+                    tree, names = canon_real(r, subst2)
+                    logged = spec_tree_json(tree, names)
+                except NotImplementedError:
+                    logged = ["unresolvable", []]
+                except BaseException as e:  # pylint:disable=broad-except
+                    res.violation(f"resolving {wrap + expr!r} with {pk} raised {type(e).__name__}: {e}", {"expr": wrap + expr, "packages": pk})
+                    continue
+                traces.append({"id": tid, "ts": ts, "tree": logged, "expr": wrap + expr, "packages": pk})
+
+        asyncio.run(go())
+        slim = [{"id": t["id"], "ts": t["ts"], "tree": t["tree"]} for t in traces]
+        t2, acc, diag = validate_traces(str(mod), str(cfg), slim, work, tag=f"resolvetrace{ti}")
+        res.add_tlc(f"ResolveTrace: real resolutions of {len(traces)} random expressions with 8-13 operands (up to 13 package occurrences) under table {ti}", t2)
+        res.count("long_expressions", len(traces))
+        for t in traces:
+            res.distinct(("long", t["expr"], ti))
+            if t["id"] not in acc:
+                at, exp = diag.get(t["id"], (0, ()))
+                res.violation(f"{t['expr']!r} with {t['packages']} resolves to {t['tree']}; bracketed textual substitution gives {exp}",
+                              {"expr": t["expr"], "packages": t["packages"]})
+
+
 def run():
     from c02 import merge
     res = Result(PID)
@@ -184,20 +251,22 @@ def run():
     ops = ["k1", "p1", "p2", "t1", "t3"] if not thorough else ["k1", "p1", "p2", "t1", "t2", "t3"]
     dumps = []
     for i, table in enumerate(TABLES):
+        ops_i = ops + (["pz"] if i == 0 else [])
         mod = work.path(f"MC_Resolve{i}.tla")
         rows = " @@ ".join(f"({to_tla(p)} :> {to_tla(tuple(b))})" for p, b in table.items())
-        mod.write_text(f"---- MODULE MC_Resolve{i} ----\nEXTENDS Resolve\nMCOperands == {to_tla(set(ops))}\nMCTable == {rows}\n====\n")
+        mod.write_text(f"---- MODULE MC_Resolve{i} ----\nEXTENDS Resolve\nMCOperands == {to_tla(set(ops_i))}\nMCTable == {rows}\n====\n")
         cfg = work.path(f"MC_Resolve{i}.cfg")
         cfg.write_text(f"CONSTANTS\n MaxTok = {n}\n Operands <- MCOperands\n Table <- MCTable\nINIT MCInit\nNEXT MCNext\nINVARIANT SubstitutionLemma\n"
                        "INVARIANT SubstWellFormed\nINVARIANT PkgLemma\nINVARIANT TimeLemma\nCHECK_DEADLOCK FALSE\n")
         dump = work.path(f"r{i}.dump")
         t = run_tlc(str(mod), str(cfg), work, dump=dump, timeout=3000, tag=f"resolve{i}")
-        res.add_tlc(f"Resolve: substitution lemma on every expression <= {n} tokens over {ops} with package table {table}", t)
+        res.add_tlc(f"Resolve: substitution lemma on every expression <= {n} tokens over {ops_i} with package table {table}", t)
         dumps.append((str(dump), table))
     # one pool for all tables: every worker process (one long-lived resolver) sees several different package tables in turn
     with mp.get_context("fork").Pool(16) as pool:
         merge(res, pool.map(_worker, [(d, table, k, 16, seed()) for k in range(16) for d, table in dumps], chunksize=1))
-    res.coverage["traces_validated_against_impl"] = res.coverage.get("resolutions", 0)
+    long_expressions(res, work, 600 if thorough else 80)
+    res.coverage["traces_validated_against_impl"] = res.coverage.get("resolutions", 0) + res.coverage.get("long_expressions", 0)
     res.coverage["evaluations"] = res.coverage.get("resolutions", 0)
     res.coverage["exhaustive"] = True
     res.coverage["rule"] = (f"every well-formed expression <= {n} tokens over a key, two packages and time conditions, for 4 package tables (package inside a package, "
